@@ -91,6 +91,9 @@ def run(tier):
         [{"cfg": "t0", "batches": ["b1", "b2"], "nostats": True}, {"cfg": "t0", "batches": ["b1", "b2"]},
          {"cfg": "t0", "batches": ["b2"], "nostats": True}, {"cfg": "t5", "batches": ["b1"]},
          {"cfg": "t5", "batches": ["b1"], "nostats": True}, {"cfg": "t5", "batches": ["b1"]}],
+        # thresholds less than a thousandth apart, around a reported confidence
+        [{"cfg": "ta", "batches": ["b4"]}, {"cfg": "tb", "batches": ["b4"]}, {"cfg": "tc", "batches": ["b4"]},
+         {"cfg": "ta", "batches": ["b4"]}],
         # near-twins: mirror images, other spellings of the same reactions
         [{"cfg": "t0", "batches": ["bs1"]}, {"cfg": "t0", "batches": ["bs2"]}, {"cfg": "t0", "batches": ["bs1", "bs2"]}],
         [{"cfg": "t0", "batches": ["bo1"]}, {"cfg": "t0", "batches": ["bo2"]}, {"cfg": "t0", "batches": ["bo3"]},
@@ -100,7 +103,7 @@ def run(tier):
                      ["b3", "t5"], ["b1", "t9"], ["b1x", "t0"], ["b1y", "t0"], ["b1y", "t5"], ["b3x", "t0"],
                      ["b1", "n0"], ["b2", "n0"], ["b1", "n5"], ["b2", "n5"], ["b1x", "n0"], ["b1y", "n0"],
                      ["bm1", "n0"], ["bm2", "n0"], ["bm3", "n0"], ["bs1", "t0"], ["bs2", "t0"], ["bo1", "t0"], ["bo2", "t0"],
-                     ["bo3", "t0"]],
+                     ["bo3", "t0"], ["b4", "ta"], ["b4", "tb"], ["b4", "tc"]],
             "states": plan_states, "histories": plan_h, "prefix_step": 211 if tier == "quick" else 7,
             "cli_histories": [
                 [{"cfg": "t0", "batches": ["b1", "b2"]}, {"cfg": "t5", "batches": ["b1", "b2"]}, {"cfg": "t0", "batches": ["b2", "b1"]},
